@@ -6,8 +6,8 @@ FAMILY = "br"
 
 MANIFEST = {
  "level": 'other',
- "text": "see Props/C18.v header (filled in by the final revision of this file)",
- "note": vlib.NOTE_COMMON,
+ "text": "Proved for every byte string about the Gallina models of de_br.rs (current decoder with traverse_path_with_vec and ghost-pair accounting; legacy decoder) and of tools.rs serialized_length_from_bytes: both decoders refine the recursive grammar of the compressed format (same accept set, same tree, same consumed length; the only differing error kind is PathIntoAtom vs SerializationBackrefError, as in the Rust), pair_vec.len()+ghost_pairs of the current decoder equals the legacy decoder's pair count on accepted and on rejected inputs, the length probe returns the consumed length exactly on the accepted inputs and the decoder's error otherwise, no panic site (empty pop, args[arg_index], remove_ghost_pair underflow, the legacy panic!s) is reachable and the loop bound 2|b|+2 is never exhausted. Outside the model: allocator caps, the byte/bit loop of traverse_path (abstracted to the bit list of the path value, as in Model/Path.v), memory use. The model is compared with the implementation on all strings of <= 2 bytes, mutated compressed serializations and stack-aware generated streams (tree, consumed bytes, pair count after the run, error kind), and the implementation is searched for cross-decoder disagreements.",
+ "note": vlib.NOTE_COMMON + " Level 'other' because the allocator caps and the bit loop of traverse_path_with_vec are outside the model; every conjunct of the statement is a theorem about the model (Props/C18.v).",
  "technique": 'Coq proof (stack machines refine the recursive grammar of the compressed format; lock-step simulation between vector stack and list stack) + model/implementation differential run + implementation cross-decoder search',
 }
 
@@ -72,7 +72,14 @@ def run(ctx):
                 "back-reference paths onto the stack spine, into items, into atoms, past the end, with leading zero bytes, "
                 "all-zero, empty, with non-canonical / rejected size prefixes, truncated; random strings over a biased "
                 "alphabet. non-trivial = distinct string that contains a 0xfe byte and has >= 2 bytes")
-    ctx.explanation = "filled in below"
+    ctx.explanation = ("Theorems (Props/C18.v, all for every byte string, no hypotheses): C18_old_refines_spec, C18_new_refines_spec (both decoders = recursive grammar de_br_spec), "
+                       "C18_decoders_agree (same accept set, tree, remaining input, and equal pair counts also on rejected inputs), C18_probe_agrees / C18_probe_accepts_iff "
+                       "(serialized_length_from_bytes = consumed length exactly on accepted inputs), C18_no_panic (no panic site, fuel 2|b|+2 suffices). "
+                       "Proof: frame lemmas for the ParseOp loop with the stack threaded, and a lock-step simulation whose relation says that the vector denotes the list stack, "
+                       "cached entries are the stack lists, ghost_pairs >= uncached entries and pairs+ghost = legacy pairs. "
+                       "Correspondence: model vs implementation on 'new' (tree, consumed bytes, pair_count after), 'old' (same), 'probe'; "
+                       "property search: 'agree' runs both decoders (fresh allocators and, like the upstream fuzz target, one shared allocator) and the probe on the implementation. "
+                       "Consumed bytes of the decoders are observed through the public slice API (least accepted prefix length) because the stream entry points are private.")
     ctx.proofs()
     if not ctx.build():
         return
